@@ -19,7 +19,7 @@ Separate Extraction
   Csrf.callback_state Csrf.decode_state Csrf.encode_state Csrf.generate_cookie_name Csrf.own_cookie_name Csrf.start_state Csrf.load_csrf
   Ticket.decode_ticket Ticket.encode_ticket Ticket.ticket_from_request Ticket.manager_load Ticket.manager_clear Ticket.manager_save
   Bypass.parse_route Bypass.is_allowed_route Bypass.is_allowed_request Bypass.build_set Bypass.set_has Bypass.canonical Bypass.is_trusted_ip Bypass.request_path
-  Authz.email_valid Authz.auth_only_authorize Authz.is_endpoint_allowed Authz.get_authenticated_session Authz.authorize Authz.split_host_port_lax
+  Authz.email_valid Authz.login_admits Authz.auth_only_authorize Authz.is_endpoint_allowed Authz.get_authenticated_session Authz.authorize Authz.split_host_port_lax
   Headers.request_headers Headers.response_headers Headers.hget Headers.canon
   Redirect.is_valid_redirect Redirect.get_redirect Redirect.callback_redirect Redirect.oauth_redirect_uri Redirect.browser_same_host Redirect.get_request_host
   SignOut.sign_out_ticket_store SignOut.sign_out_cookie_store SignOut.apply_op SignOut.kv_get
